@@ -1143,3 +1143,16 @@ func vspecCWM(src []byte) int { return vspecCW(src) + 2 + vspecBE16(src, vspecCW
 //@   ensures err == nil ==> sameslice(m.clientID, v) && m.dirty
 //@   ensures err != nil ==> sameslice(m.clientID, old(m.clientID)) && m.dirty == old(m.dirty)
 //@   modifies m.clientID, m.dirty
+
+//@ func (*ConnectMessage).KeepAlive
+//@   pure
+//@   ensures result == m.keepAlive
+//@ func (*ConnectMessage).SetKeepAlive
+//@   ensures m.keepAlive == v && m.dirty
+//@   modifies m.keepAlive, m.dirty
+//@ func (*ConnectMessage).Username
+//@   pure
+//@   ensures sameslice(result, m.username) && cap(result) == cap(m.username)
+//@ func (*ConnectMessage).Password
+//@   pure
+//@   ensures sameslice(result, m.password) && cap(result) == cap(m.password)
